@@ -1,12 +1,14 @@
 package main
 
 import (
-	"strconv"
 	"fmt"
 	"go/ast"
 	"go/token"
 	"go/types"
+	"os"
+	"runtime/debug"
 	"sort"
+	"strconv"
 	"strings"
 
 	"golang.org/x/tools/go/ssa"
@@ -162,6 +164,9 @@ func (f *Frame) get(v ssa.Value) Val {
 	}
 	// value used before definition (should only happen for unreachable blocks)
 	n := f.vname(v)
+	if os.Getenv("GOVC_DEBUG_UNDEF") != "" {
+		fmt.Fprintf(os.Stderr, "undef use of %s\n%s\n", n, debug.Stack())
+	}
 	if _, isT := v.Type().(*types.Tuple); isT {
 		return f.havocVal(v.Type(), "undef")
 	}
@@ -169,6 +174,19 @@ func (f *Frame) get(v ssa.Value) Val {
 	x := Val{T: n}
 	f.vals[v] = x
 	return x
+}
+
+// defined reports whether v has a value on the path encoded so far (a test
+// inside the loop body that this path did not go through has none).
+func (f *Frame) defined(v ssa.Value) bool {
+	if _, ok := f.vals[v]; ok {
+		return true
+	}
+	switch v.(type) {
+	case *ssa.Const, *ssa.Global, *ssa.Function, *ssa.Builtin, *ssa.Parameter:
+		return true
+	}
+	return false
 }
 
 func (f *Frame) havocVal(t types.Type, hint string) Val {
@@ -754,12 +772,12 @@ func (f *Frame) autoVariant(li *LoopInfo, from *ssa.BasicBlock) string {
 					continue
 				}
 				incT := f.get(inc).T
-				if dependsOn(lo, phi) && !dependsOn(hi, phi) && f.loopInvariantValue(hi, li) {
+				if dependsOn(lo, phi) && !dependsOn(hi, phi) && f.loopInvariantValue(hi, li) && f.defined(hi) {
 					hiT := f.get(hi).T
 					// distance shrinks: (hi - inc) < (hi - phi) and hi - phi >= 0 at a continuing iteration... we only know the test passed at the header state
 					return fmt.Sprintf("(and (< (- %s %s) (- %s %s)))", hiT, incT, hiT, pc)
 				}
-				if dependsOn(hi, phi) && !dependsOn(lo, phi) && f.loopInvariantValue(lo, li) {
+				if dependsOn(hi, phi) && !dependsOn(lo, phi) && f.loopInvariantValue(lo, li) && f.defined(lo) {
 					loT := f.get(lo).T
 					return fmt.Sprintf("(and (< (- %s %s) (- %s %s)))", incT, loT, pc, loT)
 				}
